@@ -146,6 +146,9 @@ func buildTask(c *Case, trace string, explicitSingleVariation bool) *task.Task {
 			}
 			if o == "fail" {
 				cmd += "; exit 1"
+			} else if i == 0 {
+				// the status of a pipeline is the status of its LAST part
+				cmd += "; false | cat"
 			}
 			out = append(out, cmd)
 		}
